@@ -113,7 +113,7 @@ def gen_plan(seed, tier):
         ids = sorted(live)
         if kind == "new":
             i = fresh()
-            n = r.choice([0, 1, 1, 2, 2, 3, 3, 4, 5])
+            n = r.choice([0, 1, 1, 2, 2, 3, 3, 4, 5]) if r.random() > 0.04 else r.randint(9, 40)      # sizes are arbitrary: now and then a large one
             live[i] = n
             cont[i] = [[] for _ in range(n)]
             ops.append({"op": "new", "n": n, "out": i})
@@ -146,7 +146,7 @@ def gen_plan(seed, tier):
             ops.append({"op": "sort", "arr": a})
         elif kind == "addempty":
             a = r.choice(ids)
-            n = r.choice([0, 1, 1, 1, 2, 3])
+            n = r.choice([0, 1, 1, 1, 2, 3]) if r.random() > 0.06 or live[a] > 60 else r.randint(8, 40)
             i = fresh()
             live[i] = live.pop(a) + n
             cont[i] = cont.pop(a) + [[] for _ in range(n)]
